@@ -147,21 +147,28 @@ def run_program(prog, environ, start_response, rec):
         boom()
     chunks = list(prog["chunks"])
     delivery = prog["delivery"]
-    if delivery in ("write", "write+iter"):
+    if delivery in ("write", "write+iter", "write+list"):
         nw = len(chunks) if delivery == "write" else min(prog.get("nwrite", 1), len(chunks))
         for k in range(nw):
             if exc and exc[0] == "write" and exc[1] == k:
                 boom()
             rec.produced += chunks[k]
             write(chunks[k])
+        if delivery == "write+list":
+            return BodyList(prog, rec, chunks[nw:], True)
         return BodyIter(prog, rec, chunks[nw:], False)
     if delivery == "list":
         return BodyList(prog, rec, chunks, True)
     if delivery == "gen":
         return BodyIter(prog, rec, chunks, False)
-    if delivery in ("fw", "fw-noseek"):
+    if delivery in ("fw", "fw-noseek", "fw-offset"):
         data = b"".join(chunks)
-        f = TrackedFile(data, rec) if delivery == "fw" else NoSeekFile(data, rec)
+        if delivery == "fw-offset":
+            # a file already positioned past a prefix (e.g. by range middleware)
+            f = TrackedFile(b"##" + data, rec)
+            f.seek(2)
+        else:
+            f = TrackedFile(data, rec) if delivery == "fw" else NoSeekFile(data, rec)
         rec.produced += data
         rec.is_file = True
         rec.file_obj = f  # keep it alive: only an explicit close() may count
